@@ -118,12 +118,18 @@ type anyCache interface {
 	Swap(l *ledger) // nil: remove the callback
 }
 
-type c15Cache struct{ c cache.Cache }
+// every entry of a cache holds that cache's sentinel: when the cache has been dropped (and only then,
+// as long as never-expiring entries exist) the sentinel must become collectable
+type c15Cache struct {
+	c cache.Cache
+	s *sentinel
+}
 type c15CacheOf struct {
-	c cache.CacheOf[string, int]
+	c cache.CacheOf[string, *sentinel]
+	s *sentinel
 }
 
-func (c c15Cache) Set(k string, ttl time.Duration)   { c.c.Set(k, 1, ttl) }
+func (c c15Cache) Set(k string, ttl time.Duration)   { c.c.Set(k, c.s, ttl) }
 func (c c15Cache) Count() int                        { return c.c.Count() }
 func (c c15Cache) DeleteExpired()                    { c.c.DeleteExpired() }
 func (c c15Cache) Swap(l *ledger) {
@@ -138,42 +144,42 @@ func (c c15CacheOf) Swap(l *ledger) {
 		c.c.SetEvictedCallback(nil)
 		return
 	}
-	c.c.SetEvictedCallback(func(k string, v int) { l.add(k) })
+	c.c.SetEvictedCallback(func(k string, v *sentinel) { l.add(k) })
 }
-func (c c15CacheOf) Set(k string, ttl time.Duration) { c.c.Set(k, 1, ttl) }
+func (c c15CacheOf) Set(k string, ttl time.Duration) { c.c.Set(k, c.s, ttl) }
 func (c c15CacheOf) Count() int                      { return c.c.Count() }
 func (c c15CacheOf) DeleteExpired()                  { c.c.DeleteExpired() }
 
-func buildC15(cfg c15Cfg, idx int, l *ledger) anyCache {
+func buildC15(cfg c15Cfg, idx int, l *ledger, sent *sentinel) anyCache {
 	iv := time.Duration(cfg.Interval) * time.Millisecond
 	pre := fmt.Sprintf("c%d/", idx)
 	_ = pre
 	if cfg.Of {
-		cb := func(k string, v int) { l.add(k) }
+		cb := func(k string, v *sentinel) { l.add(k) }
 		if cfg.Ctor == 1 {
 			if cfg.CB {
-				return c15CacheOf{cache.NewOfDefault[string, int](time.Hour, iv, cb)}
+				return c15CacheOf{cache.NewOfDefault[string, *sentinel](time.Hour, iv, cb), sent}
 			}
-			return c15CacheOf{cache.NewOfDefault[string, int](time.Hour, iv)}
+			return c15CacheOf{cache.NewOfDefault[string, *sentinel](time.Hour, iv), sent}
 		}
-		opts := []cache.OptionOf[string, int]{cache.WithCleanupIntervalOf[string, int](iv)}
+		opts := []cache.OptionOf[string, *sentinel]{cache.WithCleanupIntervalOf[string, *sentinel](iv)}
 		if cfg.CB {
-			opts = append(opts, cache.WithEvictedCallbackOf[string, int](cb))
+			opts = append(opts, cache.WithEvictedCallbackOf[string, *sentinel](cb))
 		}
-		return c15CacheOf{cache.NewOf[string, int](opts...)}
+		return c15CacheOf{cache.NewOf[string, *sentinel](opts...), sent}
 	}
 	cb := func(k string, v interface{}) { l.add(k) }
 	if cfg.Ctor == 1 {
 		if cfg.CB {
-			return c15Cache{cache.NewDefault(time.Hour, iv, cb)}
+			return c15Cache{cache.NewDefault(time.Hour, iv, cb), sent}
 		}
-		return c15Cache{cache.NewDefault(time.Hour, iv)}
+		return c15Cache{cache.NewDefault(time.Hour, iv), sent}
 	}
 	opts := []cache.Option{cache.WithCleanupInterval(iv)}
 	if cfg.CB {
 		opts = append(opts, cache.WithEvictedCallback(cb))
 	}
-	return c15Cache{cache.New(opts...)}
+	return c15Cache{cache.New(opts...), sent}
 }
 
 type sentinel struct{ buf [64]byte }
@@ -199,8 +205,11 @@ func oneC15(cfg c15Cfg) (viol string, miss string) {
 	base := settleGoroutines()
 	led := &ledger{m: map[string]int{}}
 	caches := make([]anyCache, cfg.Caches)
+	var releasedN int32 // sentinels (one per cache, held by that cache's entries) that have been finalized
 	for i := range caches {
-		caches[i] = buildC15(cfg, i, led)
+		s := &sentinel{}
+		runtime.SetFinalizer(s, func(*sentinel) { atomic.AddInt32(&releasedN, 1) })
+		caches[i] = buildC15(cfg, i, led, s)
 	}
 	// the callback in force may be replaced at run time: whoever removes entries later (janitor included)
 	// must use the one in force then
@@ -368,11 +377,11 @@ func oneC15(cfg c15Cfg) (viol string, miss string) {
 		runtime.GC()
 		time.Sleep(2 * time.Millisecond)
 		n := runtime.NumGoroutine()
-		if n <= base && atomic.LoadInt32(&released) == 1 {
+		if n <= base && atomic.LoadInt32(&released) == 1 && int(atomic.LoadInt32(&releasedN)) == cfg.Caches {
 			break
 		}
 		if time.Since(t0) > 10*time.Second {
-			return "", fmt.Sprintf("10 s after dropping %d caches (interval %dms): %d goroutines (baseline %d), contents released=%v", cfg.Caches, cfg.Interval, n, base, atomic.LoadInt32(&released) == 1)
+			return "", fmt.Sprintf("10 s after dropping %d caches (interval %dms): %d goroutines (baseline %d), contents released: %d of %d caches (+ auxiliary %v)", cfg.Caches, cfg.Interval, n, base, atomic.LoadInt32(&releasedN), cfg.Caches, atomic.LoadInt32(&released) == 1)
 		}
 	}
 	stats.Max("max_shutdown_latency_ms", time.Since(t0).Milliseconds())
